@@ -175,6 +175,32 @@ def option_edges(body, call_bb):
     return some_t, none_t
 
 
+def some_edge(body, call_bb):
+    """Block entered when the Option returned by the call at call_bb is Some: through a match / if-let on the value, or
+    through `.is_some()` / `.is_none()` on it."""
+    oe = option_edges(body, call_bb)
+    if oe:
+        return oe[0]
+    t = body.blocks[call_bb]['term']
+    cur = t.get('t')
+    for _ in range(4):
+        if cur is None:
+            return None
+        tt = body.blocks[cur]['term']
+        if tt['k'] == 'call' and (callee_path(tt) or '').split('::')[-1] in ('is_some', 'is_none'):
+            src = describe(body, tt['args'][0], depth=3, at=cur)
+            if (callee_path(t) or 'x') in src:
+                be = bool_edges(body, cur)
+                if be:
+                    return be[0] if (callee_path(tt) or '').endswith('is_some') else be[1]
+            return None
+        if tt['k'] == 'goto':
+            cur = tt['t']
+            continue
+        return None
+    return None
+
+
 def closure_args(F, body, t):
     """Closure bodies passed (by value or by reference) as arguments of the call `t`."""
     out = []
@@ -211,3 +237,19 @@ def frame_op(name):
     # `a += b` and `a = a + b` are the same operation on a Frame (the *Assign impls do what the binary operators do)
     names = (name, name[:-7]) if name.endswith('_assign') else (name,)
     return lambda p, t: p.split('::')[-1] in names and 'frame::Frame' in p
+
+
+def constant_term(d):
+    """Is the described value a compile-time constant?  Literals, named constants and promoted constants are; a call or
+    operator is when all of its operands are; any place (a field, a local, a parameter) is not."""
+    from .paths import parse_term
+    from .intervals import _lit
+    d = d.strip().lstrip('&')
+    if d.startswith('const ') or d.startswith('promoted['):
+        return True
+    if _lit(d) is not None:
+        return True
+    name, args = parse_term(d)
+    if args is None:
+        return False
+    return all(constant_term(a) for a in args)
